@@ -307,3 +307,44 @@ Definition C16_round (c : dcfg) (k : dcache) (evs : list ev) : option string :=
                     (orelse_s (C16_attachments_marker c k t evs)
                        (C16_no_explicit_null_status c t evs)))))
      end).
+
+(* ================= C06 on the decorator's attachments ================= *)
+(* The composite predicates C06_event_ok / C06_complete (Model/TracePreds.v) judge the decorator's
+   attachment traffic: the configuration is the composite-shaped view ManageChildren gets
+   (ccfg_of: attachment rules with their update methods, discovery), the cache is the decorator's
+   attachment cache with the cached target as parent. *)
+Definition c06_cache (c : dcfg) (k : dcache) : cache := mkCache (target_of c k) (dk_children k).
+
+(* the desired attachments as ManageChildren receives them: null entries dropped, namespaces defaulted
+   (round_hook_d), one per apiVersion/kind/qualified name (MakeUniformObjectMap), marker stamped *)
+Definition round_desired_d (c : dcfg) (evs : list ev) : option (json * dresp * list (option json)) :=
+  match round_hook_d evs with
+  | None => None
+  | Some (_, body, r) =>
+      match desired_map (dr_attachments r) [] with
+      | None => None
+      | Some d0 => Some (jget "object" (obj_map body), r, map Some (uobjects (stamp_all c d0)))
+      end
+  end.
+
+(* ManageChildren ran to its end: the sync reported success, the target was alive or is being finalized
+   by this decorator, and neither target write ended the sync early (a 404 / 409 there returns at once) *)
+Definition children_managed (c : dcfg) (sent : json) (res : sync_result) (evs : list ev) : bool :=
+  match res with
+  | SDone =>
+      (negb (is_deleting sent) || should_finalize_d c sent) &&
+      forallb (fun e => negb (is_target_write c sent e) || accepted e) (after_hook evs)
+  | _ => false
+  end.
+
+Definition C06d_round (c : dcfg) (k : dcache) (evs : list ev) (res : sync_result) : option string :=
+  match round_desired_d c evs with
+  | None => None
+  | Some (sent, r, ds) =>
+      let cc := ccfg_of c in
+      let kc := c06_cache c k in
+      orelse_s (first_some (C06_event_ok cc kc ds) (after_hook evs))
+               (if children_managed c sent res evs
+                then C06_complete cc kc sent (get_children_d c k sent) ds (after_hook evs)
+                else None)
+  end.
